@@ -179,6 +179,15 @@ def valid_templates(tier="quick"):
     T.append(_mk("validation_of_discovered", [Variant("v0", st, defaults=["top"])], {"dd.in": dd7}, ops, [nb], depth, ["produced", "validation"]))
     T.append(_mk("validation_of_discovered/fresh", [Variant("v0", st, defaults=["top"])], {"dd.in": dd7}, ops, [], 2, ["produced", "validation", "fresh"]))
 
+    # D2b: the dyndep file is not the first output of the statement that makes it (`build scan.stamp mod.dd: scan ...`)
+    st = [Stmt(["scan.stamp", "dd"], ex=["scan.in", "dd.in"], copy=True), Stmt("x", ex=["s"]),
+          Stmt("out", ex=["in"], oo=["dd"], dyndep="dd", extra_reads=["x"]), Stmt("top", ex=["out", "scan.stamp"])]
+    ops, nb = common_ops([{"op": "touch", "path": "dd.in", "label": "touch dd.in"}, {"op": "edit", "path": "scan.in", "label": "edit scan.in"},
+                          {"op": "rm", "path": "dd", "label": "rm dd"}])
+    T.append(_mk("produced_as_a_second_output", [Variant("v0", st, defaults=["top"])], {"dd.in": dyndep_text([("out", [], ["x"], False)])}, ops, [nb], depth, ["produced"]))
+    T.append(_mk("produced_as_a_second_output/fresh", [Variant("v0", st, defaults=["top"])], {"dd.in": dyndep_text([("out", [], ["x"], False)])}, ops, [], 2,
+                 ["produced", "fresh"]))
+
     # D7b: ... and that validation needs a statement of its own that nothing else in the build asks for
     st = [Stmt("dd", ex=["dd.in"], copy=True), Stmt("pre", ex=["pre.in"]), Stmt("check", ex=["check.in", "pre"]), Stmt("h", ex=["h.in"], val=["check"]),
           Stmt("out", ex=["in"], oo=["dd"], dyndep="dd", extra_reads=["h"]), Stmt("top", ex=["out"])]
